@@ -25,11 +25,14 @@ ascent::ascent_par! {
    relation nr(i32, i32);
    relation cnt(i32);
    relation outdeg(i32, i32);
+   relation indeg(i32, i32);
+   relation insum(i32, i32);
    step(0);
    step(((*i) + 1)) <-- step(i), if ((*i) < 2);
    step(0) <-- r(_, _), never();
    dom(x) <-- for x in (0)..(3);
    r(x, y) <-- step(i), sched(i, x, y);
+   r(x, y) <-- step(i), sched(i, x, y), dom(x);
    iff(x, y) <-- r(x, y);
    ibf(x, y) <-- dom(x), r(x, y);
    ifb(x, y) <-- dom(y), r(x, y);
@@ -46,6 +49,8 @@ ascent::ascent_par! {
    nr(x, y) <-- dom(x), dom(y), !r(x, y);
    cnt((n as i32)) <-- agg n = ascent::aggregators::count() in r(_, _);
    outdeg(x, (n as i32)) <-- dom(x), agg n = ascent::aggregators::count() in r(x, _);
+   indeg(y, (n as i32)) <-- dom(y), agg n = ascent::aggregators::count() in r(_, y);
+   insum(y, s) <-- dom(y), agg s = ascent::aggregators::sum(x) in r(x, y);
 }
 
 pub struct D(Prog);
@@ -68,6 +73,8 @@ impl Driven for D {
          "nr" => { self.0.nr.push((row[0].as_i64().unwrap() as i32, row[1].as_i64().unwrap() as i32,)); },
          "cnt" => { self.0.cnt.push((row[0].as_i64().unwrap() as i32,)); },
          "outdeg" => { self.0.outdeg.push((row[0].as_i64().unwrap() as i32, row[1].as_i64().unwrap() as i32,)); },
+         "indeg" => { self.0.indeg.push((row[0].as_i64().unwrap() as i32, row[1].as_i64().unwrap() as i32,)); },
+         "insum" => { self.0.insum.push((row[0].as_i64().unwrap() as i32, row[1].as_i64().unwrap() as i32,)); },
          _ => panic!("verif harness: unknown relation {}", rel),
       }
    }
@@ -89,6 +96,8 @@ impl Driven for D {
          "nr" => { self.0.nr = Default::default(); },
          "cnt" => { self.0.cnt = Default::default(); },
          "outdeg" => { self.0.outdeg = Default::default(); },
+         "indeg" => { self.0.indeg = Default::default(); },
+         "insum" => { self.0.insum = Default::default(); },
          _ => panic!("verif harness: unknown relation {}", rel),
       }
    }
@@ -111,6 +120,8 @@ impl Driven for D {
       m.push(("nr".to_string(), rows_json(self.0.nr.iter())));
       m.push(("cnt".to_string(), rows_json(self.0.cnt.iter())));
       m.push(("outdeg".to_string(), rows_json(self.0.outdeg.iter())));
+      m.push(("indeg".to_string(), rows_json(self.0.indeg.iter())));
+      m.push(("insum".to_string(), rows_json(self.0.insum.iter())));
       Value::Obj(m)
    }
    fn summary(&self) -> String { Prog::summary().to_string() }
